@@ -325,8 +325,27 @@ func checkProcessor(p *Prog, r *Report, lf *layerFacts, proc *ssa.Function) int 
 		r.Undecided("C06.R1", name, pos, "the processor's parser is built with gopacket.NewDecodingLayerParser in its package", "constructor not found")
 		return 0
 	}
+	// the parser may be built in a small helper `newLayerParser(first, decoders...)`: take both
+	// arguments from the helper's only call site
+	firstArg, varArg := newParser.Call.Args[0], newParser.Call.Args[1]
+	var atCall ssa.Instruction = newParser
+	if prm, isP := varArg.(*ssa.Parameter); isP {
+		if sites := p.CallSites(ctor); len(sites) == 1 {
+			cs := sites[0]
+			if i := paramIndex(ctor, prm); i >= 0 && i < len(cs.Common().Args) {
+				varArg = cs.Common().Args[i]
+			}
+			if fp, isFP := firstArg.(*ssa.Parameter); isFP {
+				if i := paramIndex(ctor, fp); i >= 0 && i < len(cs.Common().Args) {
+					firstArg = cs.Common().Args[i]
+				}
+			}
+			atCall = cs
+			ctor = cs.Parent()
+		}
+	}
 	// decoder set
-	elems, ok := VariadicElems(newParser.Call.Args[1])
+	elems, ok := VariadicElems(varArg)
 	if !ok {
 		r.Undecided("C06.R1", name, pos, "decoders are passed in place", "variadic built elsewhere")
 		return 0
@@ -356,11 +375,11 @@ func checkProcessor(p *Prog, r *Report, lf *layerFacts, proc *ssa.Function) int 
 	}
 	// first-layer candidates: all values the first argument can take over the constructor's paths
 	firsts := map[string]bool{}
-	for _, s := range Paths(ctor).Segs {
-		if !s.Has(newParser) {
+	for _, s := range PathsInl(ctor).Segs {
+		if !s.Has(atCall) {
 			continue
 		}
-		if g := globalOfLoad(s.Resolve(newParser.Call.Args[0])); g != nil {
+		if g := globalOfLoad(s.Resolve(firstArg)); g != nil {
 			firsts[g.Name()] = true
 		}
 	}
